@@ -47,6 +47,26 @@ def v2_jobs(prop, tier):
     return out
 
 
+def v2_masked_jobs(prop, tier):
+    t = 200 if tier == "quick" else 800
+    cfgs = [("plain", "float", "int64", 1, "2,2"), ("plain", "nullable", "int64", 1, "2,2"),
+            ("dict", "float", "int64", 1, "2,1"), ("dict", "nullable", "int64", 1, "2,1"),
+            ("delta", "float", "int64", 0, "2,1")]
+    if tier == "thorough":
+        cfgs += [("plain", "float", "double", 1, "2,2"), ("plain", "float", "int64", 0, "2,2"),
+                 ("plain", "nullable", "int64", 1, "1,2"), ("dict", "float", "int64", 1, "2,2"),
+                 ("dict", "nullable", "int64", 1, "1,2"), ("plain", "float", "int64", 1, "1,1,2")]
+    out = []
+    for enc, outk, phys, opt, rows in cfgs:
+        j = ch(prop, "vf/pyshim/h_v2.py", "h_read_col_v2_masked", t,
+               ["core.read_col (row mask over v2 pages)", "core.read_data_page_v2 (flat column)"],
+               shape=dict(encoding=enc, output=outk, physical=phys, optional=opt, page_rows=rows),
+               env=dict(VERIF_ENC=enc, VERIF_OUT=outk, VERIF_PHYS=phys, VERIF_OPTIONAL=opt, VERIF_PAGE_ROWS=rows))
+        j["name"] += "[%s,%s,%s,opt=%d,pages=%s]" % (enc, outk, phys, opt, rows)
+        out.append(j)
+    return out
+
+
 def page_jobs(prop, tier):
     """real core.read_data_page / read_def (v1) call-site patterns (vf/pyshim/h_page.py)"""
     t = 200 if tier == "quick" else 800
